@@ -753,6 +753,9 @@ func (g *gen) genProvide(s int) Op {
 		o.CB = true
 		o.CBPanic = g.pct(g.k.PCBPanic, "cbpanic")
 	}
+	if len(o.As) >= 2 && g.pct(30, "assplit") {
+		o.AsSplit = true
+	}
 	op := Op{K: OpProvide, S: s, F: f}
 	if g.pct(g.k.PNilOptArg, "niloptarg") {
 		switch g.pick(3, "nilopt") {
@@ -1062,6 +1065,7 @@ func GenCase(t *rapid.T, k Knobs) *Case {
 	g := &gen{t: t, k: k, m: NewModel(), c: &Case{}, nscope: 1}
 	g.c.Cfg.Defer = g.pct(k.PDefer, "defer")
 	g.c.Cfg.Recover = g.pct(k.PRecover, "recover")
+	g.c.Cfg.DryFalse = g.pct(4, "dryfalse") // explicit DryRun(false): no effect
 	nops := rapid.IntRange(k.MinOps, k.MaxOps).Draw(t, "nops")
 	wDec := k.WDecorate
 	if k.NoDecorators {
